@@ -372,6 +372,7 @@ func c08E2E(c *Ctx) {
 	restore := c08E2EEnv()
 	defer restore()
 	c08E2ECLI(c)
+	c08E2ENumLabels(c)
 	c08E2ESession(c)
 	c08E2EWeb(c)
 	c.Extra["e2e_wall_ms"] = time.Since(t0).Milliseconds()
